@@ -1368,25 +1368,32 @@ class Vector():
 				dtype=self._concat_dtype((other,)))
 
 
+	@staticmethod
+	def _stack_columns(columns):
+		""" Columns side by side as a Table; columns of unequal length are rejected """
+		columns = tuple(columns)
+		if len({len(col) for col in columns}) > 1:
+			raise SerifValueError(
+				f"Cannot stack columns of different lengths: {[len(col) for col in columns]}"
+			)
+		return Vector(columns)
+
 	def __rshift__(self, other):
 		""" The >> operator behavior has been overridden to add the column(s) of other to self
 		"""
-		if self._dtype.kind in (bool, int) and isinstance(other, int):
+		if self._dtype is not None and self._dtype.kind in (bool, int) and isinstance(other, int):
 			warnings.warn(f"The behavior of >> and << have been overridden for concatenation. Use .bitshift() to shift bits.")
 
 		if type(other).__name__ == 'Table':
 			if not self._dtype.nullable and not other.schema().nullable and self._dtype.kind != other.schema().kind:
 				raise SerifTypeError("Cannot concatenate two typesafe Vectors of different types")
-			return Vector((self,) + other.cols(),
-				dtype=self._dtype)
+			return self._stack_columns((self,) + other.cols())
 		if isinstance(other, Vector):
 			if not self._dtype.nullable and not other.schema().nullable and self._dtype.kind != other.schema().kind:
 				raise SerifTypeError("Cannot concatenate two typesafe Vectors of different types")
-			return Vector((self,) + (other,),
-				dtype=self._dtype)
+			return self._stack_columns((self,) + (other,))
 		if isinstance(other, Iterable) and not isinstance(other, (str, bytes, bytearray)):
-			return Vector([self, Vector(tuple(x for x in other))],
-				dtype=self._dtype)
+			return self._stack_columns([self, Vector(tuple(x for x in other))])
 		elif not self:
 			return Vector((other,),
 				dtype=self._dtype)
@@ -1415,10 +1422,7 @@ class Vector():
 		"""
 		# Convert other to Vector and combine column-wise
 		if isinstance(other, Iterable) and not isinstance(other, (str, bytes, bytearray)):
-			return Vector((Vector(tuple(other)), self),
-				None,
-				None,
-				False)
+			return self._stack_columns((Vector(tuple(other)), self))
 		# Scalar case: create a single-element vector for other
 		return Vector((Vector((other,)), self),
 			None,
